@@ -49,6 +49,12 @@ CHECKS["C04"] = dict(level="model_checking", design="DESIGN.md §6 C04, §3.1 Po
          "nothing pooled, and (b) validating the recorded pool events of the production pools (redeem hook; borrow inferred from the poison image) and of the debug pools (borrow + redeem hooks) against the monitor.",
     note="Reference outcome = same code in fresh mode (redeem hook drops every object). sync.Pool scheduling is not controllable; reuse maximised (GC off, 1 OS thread) and also run with 4 threads. Poisoner is trusted.")
 
+CHECKS["C11"] = dict(level="model_checking", design="DESIGN.md §6 C11, §3.1 ValidatorTree (Panic/Unwind)",
+    technique="ValidatorTree.tla with Panic/Unwind actions checked exhaustively by TLC (NoDup after every unwind point; the pre-fix ordering must reproduce the double redeem); (workload, k) panic histories executed on the real pools with poisoning, outcomes compared with alone/fresh references, pool streams validated by Trace_Pools.tla",
+    text="The model explores a panic at every user-code point of every validator-tree shape followed by frame-by-frame unwinding and further calls. The code is bound by injecting a panic at the k-th "
+         "format-checker invocation for every k a workload reaches, recovering, and requiring every later validation to return its alone/fresh outcome and the pool monitor's invariants to hold.",
+    note="Only format-checker panics are injected on the real code (the documented invalid-schema panic is explored in the model and by C06's runs). Same trusted base as C04.")
+
 NOT_YET = {}
 
 
